@@ -74,7 +74,7 @@ fn unchanged_but_atime(dir: u8, before: (u8, kfs::Inode)) {
 }
 
 /// One stacked operation.  `readers`: 0, 1 (/r) or 2 (/r then /q).
-fn stack_case(writer: u8, readers: u8, op: u8, checker: u8, auto_sync: bool, fault: bool) {
+fn stack_case(writer: u8, readers: u8, op: u8, checker: u8, auto_sync: bool, fault: bool, env: u8) {
     kfs::reset();
     unsafe {
         JUDGE_SAW = 0;
@@ -119,16 +119,22 @@ fn stack_case(writer: u8, readers: u8, op: u8, checker: u8, auto_sync: bool, fau
         kfs::k().fail_at = kani::any();
         kfs::k().fail_errno = kfs::EIO;
     }
+    if env != kfs::ENV_NONE && writer != W_NONE {
+        kfs::k().env = env;
+        kfs::k().dir[wdir as usize].shared = true;
+    }
+    let quiet = !fault && env == kfs::ENV_NONE; // the sequential, fault-free specification applies
     let key = Key::new(kfs::KEY_A, 1, 2);
     // reference answers
     let first = if wc != 0 { wc } else if rc != 0 { rc } else { qc };
     let first_is_primary = wc != 0;
     let all_equal = (wc == 0 || wc == first) && (rc == 0 || rc == first) && (qc == 0 || qc == first);
     let st = kfs::k();
+    kfs::begin_op(kfs::OP_STACK, (writer as i64) | ((readers as i64) << 4) | ((op as i64) << 8) | ((checker as i64) << 16) | ((auto_sync as i64) << 20), 0, 0);
 
     if op == OP_GET {
         let r = cache.get(key);
-        if !fault {
+        if quiet {
             if checker == CK_NONE || all_equal {
                 assert!(r.is_ok(), "KV-C14: a lookup succeeds when there is no checker or all present copies are identical");
                 match r.as_ref().unwrap() {
@@ -160,7 +166,7 @@ fn stack_case(writer: u8, readers: u8, op: u8, checker: u8, auto_sync: bool, fau
         std::mem::forget(r);
     } else if op == OP_TOUCH {
         let r = cache.touch(key);
-        if !fault {
+        if quiet {
             assert!(r.is_ok(), "KV-C05: touch succeeds");
             assert!(*r.as_ref().unwrap() == (first != 0), "KV-C13: touch reports whether any level holds the key");
             // the first copy found is the one marked
@@ -177,6 +183,8 @@ fn stack_case(writer: u8, readers: u8, op: u8, checker: u8, auto_sync: bool, fau
         kani::assume(pop_outcome <= 2);
         let action: u8 = if op == OP_ENSURE { 1 } else { kani::any() }; // 0 Accept, 1 Promote, 2 Replace
         kani::assume(action <= 2);
+        kfs::dump(kfs::T_OP, 4, action as i64);
+        kfs::dump(kfs::T_OP, 5, pop_outcome as i64);
         let populate = |dst: &mut File, old: Option<File>| -> Result<()> {
             unsafe { POPULATE_CALLS += 1 };
             std::mem::drop(old);
@@ -194,13 +202,16 @@ fn stack_case(writer: u8, readers: u8, op: u8, checker: u8, auto_sync: bool, fau
         };
         let judge = |hit: CacheHit| -> CacheHitAction {
             match hit {
+                // the judge reads the hit to the end before answering
                 CacheHit::Primary(f) => unsafe {
                     JUDGE_SAW = 1;
                     JUDGE_CONTENT = kfs::inode_of(f).content;
+                    kfs::consume(f);
                 },
                 CacheHit::Secondary(f) => unsafe {
                     JUDGE_SAW = 2;
                     JUDGE_CONTENT = kfs::inode_of(f).content;
+                    kfs::consume(f);
                 },
             }
             match action {
@@ -216,7 +227,7 @@ fn stack_case(writer: u8, readers: u8, op: u8, checker: u8, auto_sync: bool, fau
         };
         let saw = unsafe { JUDGE_SAW };
         let read_first = if rc != 0 { rc } else { qc };
-        if !fault {
+        if quiet {
             if op == OP_GOU && first != 0 && (checker == CK_NONE || all_equal) {
                 assert!(saw == if first_is_primary { 1 } else { 2 }, "KV-C13: a hit is reported as primary exactly when it came from the write cache");
                 assert!(unsafe { JUDGE_CONTENT } == first, "KV-C13: the judge sees the first copy found");
@@ -289,11 +300,31 @@ fn stack_case(writer: u8, readers: u8, op: u8, checker: u8, auto_sync: bool, fau
             } else {
                 assert!(st.open_now == 0, "KV-C20: nothing stays open after an error");
             }
-            // temp files created by the library are not leaked
-            if writer != W_NONE {
-                let t = if writer == W_PLAIN { kfs::D_WT } else { kfs::d_shard_temp(0, 0) };
+        }
+        // temp files created by the library are not leaked, whether the call succeeded or failed
+        // (unless the injected failure hit the very unlink that removes one)
+        if writer != W_NONE {
+            let t = if writer == W_PLAIN { kfs::D_WT } else { kfs::d_shard_temp(0, 0) };
+            let unlink_failed = st.failed && st.kind_calls[kfs::C_UNLINK as usize] > 0;
+            if !unlink_failed {
                 assert!(kfs::bound(t, kfs::S_T0) == kfs::NONE && kfs::bound(t, kfs::S_T1) == kfs::NONE,
                         "KV-C18: temporary files created by the library are not leaked");
+            }
+        }
+        if env != kfs::ENV_NONE && !fault && pop_outcome == 0 && checker == CK_NONE && writer != W_NONE {
+            assert!(r.is_ok(), "KV-C05: ensure/get_or_update never fail because of concurrent activity");
+            if let Ok(f) = &r {
+                let got = kfs::inode_of(f);
+                assert!(got.complete && got.key_tag == kfs::S_A, "KV-C01: the handle holds a complete value for the key");
+                if saw != 0 && action == 2 {
+                    assert!(got.content == VAL_C, "KV-C13: Replace returns the newly populated value, whatever other writers do meanwhile");
+                }
+                if env == kfs::ENV_PUT_ONLY && saw == 0 {
+                    // nobody overwrites or evicts: every ensure on the missing key adopts the first value published
+                    let cur = kfs::bound(wdir, kfs::S_A);
+                    assert!(cur != kfs::NONE && st.ino[cur as usize].content == got.content,
+                            "KV-C04: concurrent ensure calls for a missing key all return the winning value");
+                }
             }
         }
         kani::cover!(r.is_ok() && saw == 2 && action == 1, "secondary hit promoted");
@@ -311,6 +342,11 @@ fn stack_case(writer: u8, readers: u8, op: u8, checker: u8, auto_sync: bool, fau
             // a NamedTempFile handed over by the caller, created in the cache's temp dir
             let tdir = if writer == W_PLAIN { kfs::D_WT } else if writer == W_SHARDED { kfs::d_shard_temp(0, 0) } else { kfs::D_X };
             kfs::mkdir(tdir);
+            // (creating the caller's temp file is not part of the operation under test)
+            let armed = kfs::k().fail_at;
+            let envm = kfs::k().env;
+            kfs::k().fail_at = 0xffff;
+            kfs::k().env = kfs::ENV_NONE;
             let tmp = if writer == W_NONE {
                 kfs::k().dir[kfs::D_X as usize].exists = true;
                 kfs::fabricate_named_temp(kfs::D_X, 0)
@@ -319,9 +355,13 @@ fn stack_case(writer: u8, readers: u8, op: u8, checker: u8, auto_sync: bool, fau
             };
             let mut tmp = tmp;
             kfs::write_value(tmp.as_file_mut(), VAL_C, kfs::S_A, true);
+            kfs::k().fail_at = armed;
+            kfs::k().env = envm;
+            kfs::k().calls = 0;
+            kfs::k().trace_n = 0;
             if op == OP_SET_TEMP { cache.set_temp_file(key, tmp) } else { cache.put_temp_file(key, tmp) }
         };
-        if !fault {
+        if quiet {
             if writer == W_NONE {
                 assert!(r.is_err() && r.as_ref().err().unwrap().kind() == ErrorKind::Unsupported,
                         "KV-C13: without a write cache, writes fail as unsupported");
@@ -359,13 +399,16 @@ fn stack_case(writer: u8, readers: u8, op: u8, checker: u8, auto_sync: bool, fau
 
 macro_rules! stack_harness {
     ($name:ident, $w:expr, $r:expr, $op:expr, $ck:expr, $sync:expr, $fault:expr) => {
+        stack_harness!($name, $w, $r, $op, $ck, $sync, $fault, kfs::ENV_NONE);
+    };
+    ($name:ident, $w:expr, $r:expr, $op:expr, $ck:expr, $sync:expr, $fault:expr, $env:expr) => {
         kfs_harness! {
             #[kani::unwind(48)]
             #[kani::stub(crate::sharded::Cache::shard_ids, ids_01)]
             #[kani::stub(crate::sharded::Cache::random_shard_id, random_2)]
             #[kani::stub(crate::raw_cache::prune, crate::kv_kfs::spec_prune)]
             fn $name() {
-                stack_case($w, $r, $op, $ck, $sync, $fault);
+                stack_case($w, $r, $op, $ck, $sync, $fault, $env);
                 if $fault {
                     kani::cover!(kfs::k().failed, "fault fired");
                 }
@@ -390,6 +433,11 @@ stack_harness!(stack_set_temp_w1r1, W_PLAIN, 1, OP_SET_TEMP, CK_NONE, true, fals
 stack_harness!(stack_put_temp_w2r0, W_SHARDED, 0, OP_PUT_TEMP, CK_NONE, true, false);
 stack_harness!(stack_set_w0r1, W_NONE, 1, OP_SET, CK_NONE, true, false);
 stack_harness!(stack_put_temp_w0r1, W_NONE, 1, OP_PUT_TEMP, CK_NONE, true, false);
+// one level only (write side), checker configured: a hit is still compared with a populated value
+stack_harness!(stack_gou_w1r0_bytes, W_PLAIN, 0, OP_GOU, CK_BYTES, true, false);
+// other participants act on the write cache between any two of our calls
+stack_harness!(stack_gou_w1r1_env, W_PLAIN, 1, OP_GOU, CK_NONE, true, false, kfs::ENV_FULL);
+stack_harness!(stack_ensure_w1r0_putonly, W_PLAIN, 0, OP_ENSURE, CK_NONE, true, false, kfs::ENV_PUT_ONLY);
 // auto_sync off: no flush is required (the C03 rule is not armed), nothing else changes
 stack_harness!(stack_gou_w1r1_nosync, W_PLAIN, 1, OP_GOU, CK_NONE, false, false);
 // one failing call (flush included)
@@ -401,7 +449,7 @@ kfs_harness! {
     #[kani::unwind(48)]
     #[kani::stub(crate::raw_cache::prune, crate::kv_kfs::spec_prune)]
     fn stack_ops_sanity_twin() {
-        stack_case(W_PLAIN, 1, OP_GET, CK_NONE, true, false);
+        stack_case(W_PLAIN, 1, OP_GET, CK_NONE, true, false, kfs::ENV_NONE);
         assert!(false, "KV-SANITY: reachable end of harness");
     }
 }
